@@ -230,7 +230,7 @@ static void mc_sample(const char * fmt, ...) {
 /* returns 1 if the case must be executed by this process */
 static inline int mc_case(void) {
     mc_idx++;
-    if (mc_only) return mc_idx == mc_only;
+    if (mc_only) { if (mc_idx == mc_only) { mc_case_s[0] = mc_case_s[1] = mc_case_s[2] = NULL; return 1; } return 0; }
     if (mc_idx <= mc_skip) return 0;
     if ((mc_idx % mc_nshards) != mc_shard) return 0;
     if (mc_capped) return 0;
@@ -240,6 +240,7 @@ static inline int mc_case(void) {
         return 0;
     }
     mc_executed++;
+    mc_case_s[0] = mc_case_s[1] = mc_case_s[2] = NULL;      /* no stale case description in a crash report */
     return 1;
 }
 #define MC_CASE() mc_case()
